@@ -105,6 +105,18 @@ def showErr : ConnErr → String
   | .unknownScheme => "unknown-scheme" | .wrongScheme => "wrong-scheme" | .noHost => "no-host"
   | .badPort => "bad-port" | .badConfig => "bad-config"
 
+def showSoVal : SoVal → String
+  | .block bs => hexOrDash bs
+  | .int n => s!"i{n}"
+
+def showSock (p : SockPlan) : String :=
+  let so := if p.opts.isEmpty then "-" else ",".intercalate (p.opts.map fun (l, o, v) => s!"{l}:{o}:{showSoVal v}")
+  let b := match p.bind with
+    | none => "range"
+    | some none => "if"
+    | some (some (rx, tx)) => s!"{rx}:{tx}"
+  s!"so={so} bind={b}"
+
 def step (line : String) : String :=
   match words line with
   | ["int", h] => orErr do
@@ -223,6 +235,22 @@ def step (line : String) : String :=
             let host := match p.host with | none => "none" | some x => hexOfStr x
             let path := match p.path with | none => "none" | some x => hexOfStr x
             s!"host={host} port={showOptN p.port} path={path} {showCfg (some p.cfg)}")
+  | ["sock", sch, h] => orErr do
+      let sch ← strOfHex sch
+      let s ← strOfHex h
+      let t ← transportOf sch
+      pure (match parseUri s with
+        | none => "noplan"
+        | some u => match connectPlan t u with
+          | .error _ => "noplan"
+          | .ok p =>
+            if t.scheme = isotpT.scheme then
+              (match isotpConfig u.args with
+               | none => "noplan"
+               | some c => showSock (isotpSock c))
+            else if t.scheme = canRawT.scheme then
+              showSock (canRawSock (match (p.cfg.find? (·.1 = kIsFd)).bind (·.2) with | some (.bool b) => some b | _ => none))
+            else "none")
   | _ => "bad-op"
 
 def main : IO Unit := loopLines step
